@@ -120,6 +120,7 @@ structure File where
   elems : List (Kind × List Node)  -- as a single element read by the resolver of a kind: the sub-elements that resolver visits
   typed : List (String × Node)     -- fragment → element found by the typed drill
   raw : List (String × Node)       -- fragment → element found by the raw drill of the re-read fallback
+  conflict : Bool := false         -- as a single element it has both a `schema` and a `content` member (an error for a parameter)
 
 def refsViews : List (Kind × List Node) → List Ref
   | [] => []
@@ -276,6 +277,8 @@ def resolve (inp : Input) : Nat → Cx → Home → Bool → Node → St → St 
               | none => (tick 12 (logRead al u { st with inprog := r.text :: st.inprog }), .err)
               | some file =>
                 if file.parses then
+                  -- resolveParameterRef: "cannot contain both schema and content in a parameter"
+                  if kind = .parameter && file.conflict then (tick 22 (logRead al u { st with inprog := r.text :: st.inprog }), .err) else
                   match walk inp f ⟨cx.doc, some u⟩ (some u, st.log.length + 1) (file.elemAs kind)
                       (setMark copy (home, id) ((some u, st.log.length + 1), file.elemAs kind)
                         (tick 4 (logRead al u { st with inprog := r.text :: st.inprog }))) with
